@@ -297,12 +297,12 @@ SPECS['C01'] = dict(
         + parts(twin('raising-callback', 'harness.c01', 'h_cbraise_twin', 'a run in which the callback raises exists'), 6)
         + parts(twin('dispatch', 'harness.c01', 'h_dispatch_twin', 'a run handling a duplicate message exists'), 12)
         + parts(twin('faults', 'harness.c01', 'h_fault_twin', 'a run reporting a lost job exists'), 18)
-        + parts(twin('terminate-job', 'harness.c01', 'h_term_twin', 'a run terminating a busy worker exists'), 6)
+        + parts(twin('terminate-job', 'harness.c01', 'h_term_twin', 'a run terminating a busy worker exists'), 12)
         + parts(ch('failing-input', 'harness.c01b', 'h_bad_input', 'a submission (imap / imap_unordered) whose input iterable fails after 0..2 items while the feeder reads it: the job '
                    'submitted before it (any kind, first job of the pool or not, queued / accepted / finished-unread) keeps its own outcome, the feeder survives, the items '
                    'already read are delivered', timeout=(300, 1500)), 4)
         + parts(twin('failing-input', 'harness.c01b', 'h_bad_input_twin', 'the feeder gets through the failing input in some run'), 4)
-        + parts(ch('terminate-job', 'harness.c01', 'h_term', 'terminate_job on a busy worker, other workers exiting with any status before the same supervision pass: Terminated for exactly its job, a job whose worker merely died is lost, not terminated', timeout=(300, 1500)), 6)
+        + parts(ch('terminate-job', 'harness.c01', 'h_term', 'terminate_job on a busy worker, other workers exiting with any status before the same supervision pass: Terminated for exactly its job, a job whose worker merely died is lost, not terminated', timeout=(300, 1500)), 12)
         + parts(ch('send-failure', 'harness.c01', 'h_send', 'a task that cannot be written (symbolic index): the failure lands on that job and only it; '
                    'every job still resolves', timeout=(300, 1500)), 3)
         + parts(twin('send-failure', 'harness.c01', 'h_send_twin', 'the failing send is reached'), 3)
@@ -632,7 +632,7 @@ SPECS['C07'] = dict(
     assumptions=POOL_ASSUME + ['helper threads are played by the harness on one thread (feeder turn = real TaskHandler.body; workers move while the result handler polls)'],
     trusted_base=TRUST,
     obligations=(
-        parts(ch('close-join', 'harness.c07', 'h_close_join', 'close() then join(): drains, refuses late jobs, sentinels, no hang, workers gone, no 30 s guard; also on a pool one of whose workers is a replacement', timeout=(400, 1800)), 16)
+        parts(ch('close-join', 'harness.c07', 'h_close_join', 'close() then join(): drains, refuses late jobs, sentinels, no hang, workers gone, no 30 s guard; also on a pool one of whose workers is a replacement, and on one that was grown after a replacement', timeout=(400, 1800)), 16)
         + parts(twin('close-join', 'harness.c07', 'h_close_join_twin', 'join() returns in some run'), 16)
         + [ch('death-after-close', 'harness.c07', 'h_death_after_close', 'a worker dies in task code after close(): exactly its job fails with WorkerLostError, the '
               'other job keeps its result, join() returns', timeout=(300, 1500)),
@@ -668,7 +668,7 @@ SPECS['C08'] = dict(
         + parts(twin('terminate', 'harness.c07', 'h_terminate_twin', 'a run terminating busy workers exists'), 16)
         + [ch('terminate-signal', 'harness.c07', 'h_terminate_signal', 'real popen_fork.Popen.terminate over a recording os.kill: it sends common.TERM_SIGNAL - the signal the workers hook, '
               'also when a deployment remapped it (REMAP_SIGTERM) and workers ignore SIGTERM; a worker that is already gone is tolerated', timeout=(120, 600), nontrivial_witness=True)]
-        + parts(ch('terminate-job', 'harness.c01', 'h_term', 'terminate_job on a busy worker: Terminated for exactly its job', timeout=(300, 1500)), 6)
+        + parts(ch('terminate-job', 'harness.c01', 'h_term', 'terminate_job on a busy worker (other workers may exit before the same supervision pass): Terminated for exactly its job', timeout=(300, 1500)), 12)
         + [ch('after-fork-signal-order', 'harness.c03', 'h_after_fork', 'real Worker.after_fork with a recording signal table: the termination handlers (and the soft-limit '
               'handler) are installed after the user initializer ran, so they win; parent pipe ends closed', timeout=(300, 1500), nontrivial_witness=True)]
         + [ch('terminate-threaded', 'harness.c07', 'h_terminate_threaded', 'threaded pool (helper threads played by the harness): terminate() with 0..2 jobs fed and possibly one job '
